@@ -744,7 +744,9 @@ fn exec_c10(t: &C10Trace, out: &mut Outcome<C10Trace>) {
             // (a) every storage kind produces plain ++ le(checksum(plain))
             let a = (o.ser_alloc)(m, t.alg);
             let h = (o.ser_hvec)(m, t.alg);
-            let cap = frame.len() + (t.suffix.len() % 3);
+            // exact fit, a little slack, and roomy buffers (code guarded by "plenty of room")
+            let extras = [0usize, 1, 2, 8, 16, 24, 64, frame.len() + 3, 512];
+            let cap = (frame.len() + extras[(t.suffix.len() + frame.len()) % extras.len()]).min(arena::RW);
             let (s, stray) = arena::with_arena(|ar| {
                 ar.with_buf(cap, Place::End, |buf| (o.ser_slice)(m, t.alg, buf), |r| match r {
                     Ok(Ok((_, b))) => Some(b.len()),
